@@ -229,8 +229,13 @@ def main(argv=None):
         if edited and regress:
             # retry once with the thorough budget before calling it a regression
             obs_r = [o for n in regress for o in groups[n.split(' (')[0]]['obs']]
-            res_r = solve.discharge(obs_r, max(60, timeout_s * 3))
-            still = set(o.name for o, r in zip(obs_r, res_r) if r['status'] != 'proved')
+            if len(regress) <= 6:
+                res_r = solve.discharge(obs_r, max(60, timeout_s * 3))
+                still = set(o.name for o, r in zip(obs_r, res_r) if r['status'] != 'proved')
+            else:
+                # many ledger obligations undecided at once on an edited file: the first pass (with its own patient retry)
+                # stands; retrying dozens of false obligations with long budgets only makes a broken tree slow to report
+                still = set(o.name for o in obs_r)
             for n in list(regress):
                 if n.split(' (')[0] not in still:
                     unknown.remove(n)
@@ -274,6 +279,8 @@ def main(argv=None):
                 j = replay_mod.job_of(c, reg, mod, pid, '<cross-check>')
                 j['name'] = c.name
                 j['known_regions'] = [f['region'] for f in findings if f.get('function') == c.name and f.get('native_region', True)]
+                j['known_region_kinds'] = ['exc' if re.search(r'/(noexc|raises|noraise):', f.get('obligation', '')) else 'post'
+                                           for f in findings if f.get('function') == c.name and f.get('native_region', True)]
                 jobs.append(j)
             except Unsupported:
                 continue
